@@ -18,6 +18,8 @@ alphabets, wider alphabets and triples inside the groups) is executed:
 * ``copy``   ``modified()`` / ``duplicate()`` / ``deepcopy`` / pickle copies, changed by assignment or in
              place: the original keeps every value, the copy holds what was assigned and round-trips;
 * ``file``   the file-based route (``writeToYamlFile`` / ``Settings(fName)`` / medium style re-write);
+* ``chars``  every code point U+0001..U+017F (+ separators, BOM, non-characters, astral) in four contexts
+             through one text-typed and one list-typed setting (short style);
 * ``renamer`` the rename rules (active, expired, current name wins) on synthetic settings.
 
 A *case* is pure JSON; ``evaluate(case)`` re-executes it from nothing.
@@ -37,8 +39,8 @@ STYLES = ("short", "medium", "full")
 
 # enumeration bounds, in one place ---------------------------------------------------------------
 BOUNDS = {
-    "quick": dict(pair_all=None, pair_group=(4, 1), pair_lists=(2, 1), triples=None, copy_vals=2, doc_pre=True),
-    "thorough": dict(pair_all=(2, 1), pair_group=(10, 3), pair_lists=(6, 2), triples=(2, 0), copy_vals=6, doc_pre=True),
+    "quick": dict(full_vals=3, full_pairs=False, pair_all=None, pair_group=(3, 1), pair_lists=(2, 1), triples=None, copy_vals=2, doc_pre=True),
+    "thorough": dict(full_vals=None, full_pairs=True, pair_all=(2, 1), pair_group=(10, 3), pair_lists=(6, 2), triples=(2, 0), copy_vals=6, doc_pre=True),
 }
 BATCH = 24
 
@@ -91,17 +93,26 @@ def _load(text, into=None):
     return cs, reader
 
 
+_CULPRIT = {}
+
+
 def _culprits(tree):
-    """Diagnosis of a failed read: which entries of the document fail when loaded alone?"""
+    """Diagnosis of a failed read: which entries of the document fail when loaded alone?
+    (memoised per entry: most entries of a full-style document are the same defaults every time)"""
     from ruamel.yaml import YAML
 
     bad = []
     for k, v in tree["settings"].items():
-        s = io.StringIO()
-        YAML().dump({"settings": {k: v}}, s)
-        try:
-            _load(s.getvalue())
-        except Exception:
+        ck = (k, R.jkey(v))
+        if ck not in _CULPRIT:
+            s = io.StringIO()
+            YAML().dump({"settings": {k: v}}, s)
+            try:
+                _load(s.getvalue())
+                _CULPRIT[ck] = False
+            except Exception:
+                _CULPRIT[ck] = True
+        if _CULPRIT[ck]:
             bad.append(k)
     return bad
 
@@ -149,6 +160,40 @@ def _stored_matches(stored, want):
         return True, ""
     a, b = R.canon(stored), R.canon(want)
     return a == b, "stored %s, schema gives %s" % (_short(stored), _short(want))
+
+
+def _leafdiff(a, b):
+    """First differing leaf pair of two canonical values (depth-first)."""
+    if a == b:
+        return None
+    if a[0] == b[0] and a[0] == "l" and len(a[1]) == len(b[1]):
+        for x, y in zip(a[1], b[1]):
+            d = _leafdiff(x, y)
+            if d:
+                return d
+    if a[0] == b[0] and a[0] == "d" and len(a[1]) == len(b[1]):
+        for (k1, x), (k2, y) in zip(a[1], b[1]):
+            d = _leafdiff(k1, k2) or _leafdiff(x, y)
+            if d:
+                return d
+    if a[0] == b[0] and a[0] == "o" and a[1] == b[1]:
+        return _leafdiff(a[2], b[2])
+    return a, b
+
+
+def _diffclass(name, a, b):
+    """Class of a round-trip difference: text that changes is classed by the first character that
+    does not survive (the same for every setting that can hold text); anything else by the setting."""
+    d = _leafdiff(a, b)
+    if d and d[0][0] == "s" and d[1][0] == "s":
+        x, y = d[0][1], d[1][1]
+        i = 0
+        while i < len(x) and i < len(y) and x[i] == y[i]:
+            i += 1
+        # one character replaced or lost, the rest intact
+        if i < len(x) and (x[i + 1 :] == y[i + 1 :] or x[i + 1 :] == y[i:]):
+            return "text:U+%04X" % ord(x[i])
+    return name
 
 
 class _V:
@@ -267,7 +312,7 @@ def _roundtrip(V, cs, style, by_user, src, dflt):
         if R.loose(src[n]) == R.loose(got[n]):
             V.bad("roundtrip-type-changes:" + n, "style %s: %s written as %s reads back as %s" % (style, n, _short(src[n]), _short(got[n])))
         elif n in changed:
-            V.bad("roundtrip-differs:" + n, "style %s: %s written as %s reads back as %s" % (style, n, _short(src[n]), _short(got[n])))
+            V.bad("roundtrip-differs:" + _diffclass(n, src[n], got[n]), "style %s: %s written as %s reads back as %s" % (style, n, _short(src[n]), _short(got[n])))
         else:
             V.bad("default-not-preserved:" + n, "style %s: %s was left at its default %s but reads back as %s (changed: %s)" % (style, n, _short(src[n]), _short(got[n]), sorted(changed)))
 
@@ -328,10 +373,12 @@ def _eval_doc(case):
     agot, aerr = _assign(cs2, name, v)
     if got == "refused":
         d = _diff(before, after)
-        if d:
+        if d and agot == "ok" and want != "refused":
+            pass  # reported below as accepted-value-unreadable (the refusal does not come from the setting)
+        elif d:
             V.bad("refused-read-changed-value:" + name, "reading %s failed (%s) but %s no longer holds the previous value: %s -> %s" % (_short(text), err, d, _short(before[d[0]]), _short(after[d[0]])))
-        if want == "ok" and agot == "ok":
-            V.bad("accepted-value-unreadable:" + name, "%s = %s is valid and accepted on assignment, but a document holding it is refused: %s" % (name, _short(v), err))
+        if want != "refused" and agot == "ok":
+            V.bad("accepted-value-unreadable:" + name, "%s = %s is valid and accepted on assignment, but a document holding it is refused: %s (after the failed read %s holds %s)" % (name, _short(v), err, name, _short(after[name])))
         elif want == "ok":
             V.bad("valid-value-refused:" + name, "%s: %s admitted by the schema but refused on read: %s" % (name, _short(v), err))
     else:
@@ -366,10 +413,13 @@ def _eval_rename(case):
     s = dict(cs.items())[new]
     if old not in [o for o, _ in s.oldNames]:
         raise RuntimeError("case out of date: %s is not an old name of %s" % (old, new))
+    want, wval = _ref(s, v)
     if "pre" in case:
         _assign(cs, new, R.dec(case["pre"]))
+        if want == "ok" and _stored_matches(dict(cs.items())[new].value, wval)[0]:
+            V.n("pre_same")
+            return V  # the previous value already equals the one in the document: nothing to observe
     before = _snap(cs)
-    want, wval = _ref(s, v)
     entries = {old: v}
     if case.get("with"):
         entries = dict([(case["with"][0], R.dec(case["with"][1])), (old, v)])
@@ -384,23 +434,23 @@ def _eval_rename(case):
     if want == "ok":
         V.n("nontrivial")
         if got != "ok":
-            V.bad("old-name-refused:%s->%s" % (old, new), "document %s raised %s" % (_short(text), err))
+            V.bad("old-name-refused", "document %s raised %s" % (_short(text), err))
         else:
             ok, why = _stored_matches(dict(cs.items())[new].value, wval)
             if not ok:
-                V.bad("old-name-ignored:%s->%s" % (old, new), "document %s: %s keeps %s (%s); reader reports invalid settings %s" % (_short(text), new, _short(after[new]), why, sorted(reader.invalidSettings)))
+                V.bad("old-name-ignored", "document %s (%s is an old name of %s): %s keeps %s (%s); reader reports invalid settings %s" % (_short(text), old, new, new, _short(after[new]), why, sorted(reader.invalidSettings)))
             elif old in reader.invalidSettings:
-                V.bad("old-name-reported-invalid:%s->%s" % (old, new), "document %s sets %s but also reports %s invalid" % (_short(text), new, old))
+                V.bad("old-name-reported-invalid", "document %s sets %s but also reports %s invalid" % (_short(text), new, old))
             skip = {new} | ({case["with"][0]} if case.get("with") else set())
             d = _diff(before, after, skip=skip)
             if d:
-                V.bad("old-name-changed-other-setting:%s->%s" % (old, new), "document %s changed %s" % (_short(text), d))
+                V.bad("old-name-changed-other-setting", "document %s changed %s" % (_short(text), d))
     elif want == "refused":
         if got == "ok" and after[new] != before[new]:
             V.bad("invalid-value-accepted:" + new, "document %s (old name): invalid value stored as %s" % (_short(text), _short(after[new])))
         elif got == "ok":
             # silently dropped: the value was neither stored nor rejected with an error
-            V.bad("old-name-ignored:%s->%s" % (old, new), "document %s: invalid value under the old name is neither rejected nor stored (reported invalid: %s)" % (_short(text), sorted(reader.invalidSettings)))
+            V.bad("old-name-ignored", "document %s: invalid value under the old name is neither rejected nor stored (reported invalid: %s)" % (_short(text), sorted(reader.invalidSettings)))
         elif after[new] != before[new]:
             V.bad("refused-read-changed-value:" + new, "document %s refused (%s) but %s changed" % (_short(text), err, new))
     return V
@@ -509,8 +559,27 @@ def _eval_copy(case):
     if d:
         V.bad("copy-differs-from-original:" + how + ":" + d[0], "%s copy with %s changed also differs in %s" % (how, name, d))
     # the copy is a settings object like any other: it must round-trip
+    # (differentially: a failure that the same values give on a settings object that is not a copy
+    # belongs to the dev cases, not here)
     dflt = _defaults(cp)
-    _roundtrip(V, cp, "short", (), cpv, dflt)
+    W = _V(case)
+    _roundtrip(W, cp, "short", (), cpv, dflt)
+    for k, n in W.stats.items():
+        V.n(k, n)
+    control = set()
+    if W.vs:
+        plain = _new()
+        if "v0" in case:
+            _assign(plain, name, R.dec(case["v0"]))
+        _assign(plain, name, v1)
+        W0 = _V(case)
+        _roundtrip(W0, plain, "short", (), _snap(plain), dflt)
+        control = set(v["key"] for v in W0.vs)
+    for v in W.vs:
+        if v["key"] in control:
+            V.n("copy_failure_same_as_plain")
+            continue
+        V.bad("copy-roundtrip:%s:%s" % (how, v["key"][len("c17/"):]), "%s copy with %s = %s: %s" % (how, name, _short(v1), v["msg"]))
     return V
 
 
@@ -630,7 +699,34 @@ def _eval_renamer(case):
     return V
 
 
-_EVAL = {"dev": _eval_dev, "doc": _eval_doc, "rename": _eval_rename, "copy": _eval_copy, "file": _eval_file, "renamer": _eval_renamer}
+# ---------------------------------------------------------------------------------------------
+# case kind: chars (every code point of a range, in four contexts, through one text-typed setting)
+
+CHAR_CONTEXTS = ("%s", "a%sb", "%s x", " %s")
+CODEPOINTS = list(range(1, 0x180)) + [0x2028, 0x2029, 0xFEFF, 0xFFFE, 0xFFFF, 0xD7FF, 0xE000, 0x1F600, 0x10FFFF]
+
+
+def _eval_chars(case):
+    V = _V(case)
+    name = case["name"]
+    dflt = None
+    for cp in case["cps"]:
+        for ctxt in CHAR_CONTEXTS:
+            v = ctxt % chr(cp)
+            cs = _new()
+            if dflt is None:
+                dflt = _defaults(cs)
+            val = [v, "x"] if case.get("in_list") else v
+            got, err = _assign(cs, name, val)
+            if got != "ok":
+                V.bad("valid-value-refused:" + name, "%s = %r refused: %s" % (name, val, err))
+                continue
+            _roundtrip(V, cs, "short", (), _snap(cs), dflt)
+    V.n("nontrivial")
+    return V
+
+
+_EVAL = {"chars": _eval_chars, "dev": _eval_dev, "doc": _eval_doc, "rename": _eval_rename, "copy": _eval_copy, "file": _eval_file, "renamer": _eval_renamer}
 
 
 def evaluate(case):
@@ -643,7 +739,7 @@ def _batch(cases):
     for c in cases:
         V = _EVAL[c["kind"]](c)
         per = {}
-        for v in V.vs:  # at most 3 examples per class and case
+        for v in V.vs:  # one example per class and case
             per[v["key"]] = per.get(v["key"], 0) + 1
             if per[v["key"]] <= 1:
                 vs.append(v)
@@ -710,14 +806,25 @@ def build_cases(ctx):
     cases.append({"kind": "dev", "assign": []})
     # 1 deviation: every setting x every value x styles, by assignment and from a document
     for n in names:
+        fullvals = set(R.jkey(v) for v in (cls[n][0][: B["full_vals"]] if B["full_vals"] else alph[n]))
         for v in alph[n]:
             ev = R.enc(v)
-            cases.append({"kind": "dev", "assign": [[n, ev]]})
+            c = {"kind": "dev", "assign": [[n, ev]]}
+            if R.jkey(v) not in fullvals:
+                c["styles"] = ["short", "medium"]  # the full style differs only by the defaults it lists
+            cases.append(c)
             if R.json_able(v):
                 cases.append({"kind": "doc", "name": n, "val": ev})
                 if B["doc_pre"] and cls[n][0]:
                     pre = cls[n][0][0] if R.jkey(cls[n][0][0]) != R.jkey(v) or len(cls[n][0]) < 2 else cls[n][0][1]
                     cases.append({"kind": "doc", "name": n, "val": ev, "pre": R.enc(pre)})
+    # every code point of CODEPOINTS x 4 contexts through one plain text setting and one plain list setting
+    texts = [n for n in names if isinstance(defs[n].default, str) and not defs[n].options and getattr(defs[n], "_customSchema", None) is None]
+    plainlists = [n for n in names if defs[n].default == [] and getattr(defs[n], "_customSchema", None) is None]
+    info["char_sweep_settings"] = texts[:1] + plainlists[:1]
+    for n, in_list in [(x, False) for x in texts[:1]] + [(x, True) for x in plainlists[:1]]:
+        for i in range(0, len(CODEPOINTS), 16):
+            cases.append({"kind": "chars", "name": n, "cps": CODEPOINTS[i : i + 16], "in_list": in_list})
     # renames: every (old -> new) x values (valid and invalid), alone, with a previous value, next to another entry
     nren = 0
     for n in names:
@@ -772,6 +879,8 @@ def build_cases(ctx):
             for va in reduced(a, k):
                 for vb in reduced(b, k):
                     c = {"kind": "dev", "assign": [[a, va], [b, vb]]}
+                    if not B["full_pairs"]:
+                        c["styles"] = ["short", "medium"]
                     h = core.jhash(c)
                     if h not in seen:
                         seen.add(h)
@@ -828,6 +937,7 @@ def run(ctx):
         values_valid_nondefault=info["values_valid_nondefault"],
         values_invalid=info["values_invalid"],
         rename_pairs=info["rename_pairs"],
+        char_sweep=dict(settings=info["char_sweep_settings"], code_points=len(CODEPOINTS), contexts=list(CHAR_CONTEXTS)),
         groups=info["groups"],
         settings_with_unmodelled_schema=unmod,
         settings_without_nondefault_valid_value=info["settings_without_nondefault_valid"],
